@@ -22,7 +22,7 @@ import re
 import time
 
 from harness.lib import cfg, common, lr1dump
-from harness.translate import lr1_examples
+from harness.translate import lr1_examples, lr1_emboss_runs
 
 PROP = "C09"
 
@@ -431,6 +431,7 @@ def run(tier):
                        "complete) + token streams; non-trivial = distinct (grammar, outcome kind, length) and "
                        "distinct error messages reached")
     lr1_examples.regenerate()
+    lr1_emboss_runs.regenerate()   # `run` equations on the shipped Emboss rows vs the real Parser.parse
     model_ok = common.proof_gate(chk, search)
     stats = {}
     lines, checks = [], []
